@@ -10,22 +10,7 @@
  * it to 0 (the one existing slot), case B lets it be any other value. A u B covers every value
  * the real decoders can return (their range is proved in their own groups).
  */
-#include <stdio.h>
-#include <stdint.h>
-#include <stdlib.h>
-#include <string.h>
-#include <strings.h>
-#include <time.h>
-#include <sys/types.h>
-#include <sys/socket.h>
-#include <netinet/in.h>
-#include <arpa/inet.h>
-#include <syslog.h>
-#include <stddef.h>
-#include "lib/verif.h"
-#include "common.h"
-#include "encoding.h"
-#include "user.h"
+#define VERIF_REACH() __CPROVER_assert(0, "VERIF_REACH: code after the call is reachable (must fail)")
 
 /* ---- redirect calls to helpers defined inside iodined.c to stubs, keeping the definitions ---- */
 /* write_dns(int fd, ...) is the definition/prototype; every call passes dns_fd or fd */
@@ -33,15 +18,25 @@
 #define WDSEL_dns_fd verif_stub_write_dns(dns_fd
 #define WDSEL_fd verif_stub_write_dns(fd
 #define write_dns(a, b, c, d, e) WDSEL_##a, b, c, d, e)
-#ifdef STUB_SEND_CHUNK
+#ifdef STUB_HELPERS
+/* In the dispatcher groups the stream helpers are replaced: by a contract stub (P/data groups) or,
+ * for commands that can never reach them, by a stub asserting exactly that (which also keeps
+ * symex from expanding those branches). Definitions are kept under the name verif_real_*. */
 #define SCSEL_int verif_real_send_chunk_or_dataless(int
 #define SCSEL_dns_fd verif_stub_send_chunk_or_dataless(dns_fd
 #define send_chunk_or_dataless(a, b, c) SCSEL_##a, b, c)
-#endif
-#ifdef STUB_FULL_PACKET
 #define FPSEL_int verif_real_handle_full_packet(int
 #define FPSEL_tun_fd verif_stub_handle_full_packet(tun_fd
 #define handle_full_packet(a, b, c) FPSEL_##a, b, c)
+#define PASEL_int verif_real_process_downstream_ack(int
+#define PASEL_userid verif_stub_process_downstream_ack(userid
+#define process_downstream_ack(a, b, c) PASEL_##a, b, c)
+#define ADSEL_int verif_real_answer_from_dnscache(int
+#define ADSEL_dns_fd verif_stub_answer_from_dnscache(dns_fd
+#define answer_from_dnscache(a, b, c) ADSEL_##a, b, c)
+#define AQSEL_int verif_real_answer_from_qmem(int
+#define AQSEL_dns_fd verif_stub_answer_from_qmem(dns_fd
+#define answer_from_qmem(a, b, c, d, e, f) AQSEL_##a, b, c, d, e, f)
 #endif
 #define main iodined_main
 #define time verif_time
@@ -55,8 +50,23 @@
 #define memcpy verif_memcpy_t
 #define strcmp verif_strcmp
 #define strlen verif_strlen
-#define fprintf(...) 0
+#define fprintf verif_fprintf
 
+#ifdef STUB_HELPERS
+struct query; struct dnsfd;
+static int verif_stub_send_chunk_or_dataless(int dns_fd, int userid, struct query *q);
+static void verif_stub_handle_full_packet(int tun_fd, struct dnsfd *dns_fds, int userid);
+static void verif_stub_process_downstream_ack(int userid, int down_seq, int down_frag);
+static int verif_stub_answer_from_dnscache(int dns_fd, int userid, struct query *q);
+static int verif_stub_answer_from_qmem(int dns_fd, struct query *q, unsigned char *qmem_cmc, unsigned short *qmem_type, int qmem_len, unsigned char *cmc_to_check);
+#endif
+#ifdef VERIF_SHRUNK_TU
+#include VERIF_SHRUNK_TU      /* gcc -E iodined.c with the packet payload capacity shrunk (see evidence: extraction_drops) */
+#include VERIF_SHRUNK_MACROS  /* the object-like macros of the same TU that the harness refers to */
+#define offsetof(t, m) __builtin_offsetof(t, m)
+#else
+#include <iodined.c>
+#endif
 /* ---- ghost state ----------------------------------------------------------------------------- */
 static time_t g_now;
 static int g_answers;                 /* number of write_dns calls */
@@ -82,6 +92,7 @@ void verif_syslog(int pri, const char *fmt, ...) { }
 char *verif_strdup(const char *s) { static char b[32]; return b; }
 void verif_free(void *p) { }
 char *verif_inet_ntoa(struct in_addr a) { static char b[16]; b[15] = 0; return b; }
+int verif_fprintf(FILE *f, const char *fmt, ...) { return 0; }
 int verif_snprintf(char *buf, size_t n, const char *fmt, ...)
 {
 	int r = nondet_int();
@@ -98,7 +109,7 @@ int verif_snprintf(char *buf, size_t n, const char *fmt, ...)
  *   - payload arrays (packet data, cached answers): bounds asserted, the member becomes arbitrary
  *     (over-approximation: also bytes outside the copied range);
  * everything else: bounds asserted, destination range arbitrary, one ghost byte exact. */
-extern struct tun_user slot;
+struct tun_user slot;
 /* the payload of a packet buffer becomes arbitrary: typed struct assignment, scalar fields kept */
 static void verif_any_payload(struct packet *p)
 {
@@ -178,12 +189,23 @@ void *verif_memcpy_t(void *dst, const void *src, size_t n)
 int verif_strcmp(const char *a, const char *b) { return nondet_int(); }
 size_t verif_strlen(const char *s) { size_t n = nondet_size_t(); __CPROVER_assume(n <= 7); return n; } /* only encoder names */
 
-#include <iodined.c>
 
 #undef memcpy
 #undef strcmp
 #undef strlen
 #undef time
+#ifdef STUB_HELPERS
+#undef send_chunk_or_dataless
+#undef handle_full_packet
+#undef process_downstream_ack
+#undef answer_from_dnscache
+#undef answer_from_qmem
+#define send_chunk_or_dataless verif_real_send_chunk_or_dataless
+#define handle_full_packet verif_real_handle_full_packet
+#define process_downstream_ack verif_real_process_downstream_ack
+#define answer_from_dnscache verif_real_answer_from_dnscache
+#define answer_from_qmem verif_real_answer_from_qmem
+#endif
 
 /* ---- stubs for functions of other translation units ------------------------------------------- */
 struct tun_user *users;
@@ -255,16 +277,29 @@ static void verif_stub_write_dns(int fd, struct query *q, const char *data, int 
 #define PB(lit, i) ((i) >= sizeof(lit) - 1 || g_pay[i] == (unsigned char)(lit)[(i) < sizeof(lit) - 1 ? (i) : 0])
 #define PAY_IS(lit) (g_paylen == (int)sizeof(lit) - 1 && PB(lit, 0) && PB(lit, 1) && PB(lit, 2) && PB(lit, 3) && PB(lit, 4) && PB(lit, 5) && PB(lit, 6) && PB(lit, 7) && PB(lit, 8))
 
+#ifdef STUB_HELPERS
+#ifndef STUB_CONTRACTS
+/* commands other than P and data never reach the stream helpers */
+#define UNREACHED(name) do { __CPROVER_assert(0, name " is not reachable from this command"); __CPROVER_assume(0); } while (0)
+static int verif_stub_send_chunk_or_dataless(int dns_fd, int userid, struct query *q) { UNREACHED("send_chunk_or_dataless"); return 0; }
+static void verif_stub_handle_full_packet(int tun_fd, struct dnsfd *dns_fds, int userid) { UNREACHED("handle_full_packet"); }
+static void verif_stub_process_downstream_ack(int userid, int down_seq, int down_frag) { UNREACHED("process_downstream_ack"); }
+static int verif_stub_answer_from_dnscache(int dns_fd, int userid, struct query *q) { UNREACHED("answer_from_dnscache"); return 0; }
+static int verif_stub_answer_from_qmem(int dns_fd, struct query *q, unsigned char *a, unsigned short *b, int c, unsigned char *d) { UNREACHED("answer_from_qmem"); return 0; }
+#endif
+#endif
+
 /* ---- single-slot state --------------------------------------------------------------------- */
-struct tun_user slot;
 static struct query g_q;
 
 /* representation invariant of a session slot (what every handler may rely on and must keep) */
 #define SESSION_WF(u) ((u).last_pkt >= 0 && (u).last_pkt < (1L << 40) && \
-	(u).inpacket.len >= 0 && (u).inpacket.offset >= 0 && (u).inpacket.offset <= (u).inpacket.len && (u).inpacket.len <= 65536 && \
-	(u).outpacket.len >= 0 && (u).outpacket.len <= 65536 && (u).outpacket.offset >= 0 && (u).outpacket.offset <= (u).outpacket.len && \
+	(u).inpacket.len >= 0 && (u).inpacket.offset >= 0 && (u).inpacket.offset <= (u).inpacket.len && (u).inpacket.len <= (int)sizeof((u).inpacket.data) && \
+	(u).outpacket.len >= 0 && (u).outpacket.len <= (int)sizeof((u).outpacket.data) && (u).outpacket.offset >= 0 && (u).outpacket.offset <= (u).outpacket.len && \
 	(u).outpacket.sentlen >= 0 && (u).outpacket.sentlen <= (u).outpacket.len - (u).outpacket.offset && \
 	(u).fragsize >= 2 && (u).fragsize <= 65535 && (u).outfragresent >= 0 && (u).outfragresent <= 7 && \
+	(u).outpacketq[0].len >= 0 && (u).outpacketq[0].len <= (int)sizeof((u).outpacket.data) && (u).outpacketq[1].len >= 0 && (u).outpacketq[1].len <= (int)sizeof((u).outpacket.data) && \
+	(u).outpacketq[2].len >= 0 && (u).outpacketq[2].len <= (int)sizeof((u).outpacket.data) && (u).outpacketq[3].len >= 0 && (u).outpacketq[3].len <= (int)sizeof((u).outpacket.data) && \
 	(u).outpacketq_filled >= 0 && (u).outpacketq_filled <= OUTPACKETQ_LEN && (u).outpacketq_nexttouse >= 0 && (u).outpacketq_nexttouse < OUTPACKETQ_LEN && \
 	(u).dnscache_lastfilled >= 0 && (u).dnscache_lastfilled < DNSCACHE_LEN && \
 	(u).qmemping_lastfilled >= 0 && (u).qmemping_lastfilled < QMEMPING_LEN && (u).qmemdata_lastfilled >= 0 && (u).qmemdata_lastfilled < QMEMDATA_LEN && \
@@ -297,7 +332,7 @@ static _Bool spec_same_source(const struct sockaddr_storage *host, const struct 
 		return ((const struct sockaddr_in *)host)->sin_addr.s_addr == ((const struct sockaddr_in *)from)->sin_addr.s_addr;
 	if (from->ss_family == AF_INET6) {
 		for (i = 0; i < 16; i++)
-			if (((const struct sockaddr_in6 *)host)->sin6_addr.s6_addr[i] != ((const struct sockaddr_in6 *)from)->sin6_addr.s6_addr[i])
+			if (((const struct sockaddr_in6 *)host)->sin6_addr.__in6_u.__u6_addr8[i] != ((const struct sockaddr_in6 *)from)->sin6_addr.__in6_u.__u6_addr8[i])
 				return 0;
 		return 1;
 	}
@@ -382,6 +417,9 @@ void h_cmd_guarded(void)
 	__CPROVER_assume(uid >= -128 && uid <= 127);
 #endif
 #if H_CMD == 'R'
+#if H_UID_CASE == 1
+	__CPROVER_assume(uid >= 1 && uid <= 15);                   /* R carries the userid in 4 bits */
+#endif
 	g_b32_script[0] = (uid << 1) | (nondet_int() & 1);        /* userid sits in bits 1..4 of the first character */
 	g_b32_script[1] = g_b32_script[0];
 #endif
@@ -412,10 +450,23 @@ void h_cmd_guarded(void)
 	VERIF_REACH();
 }
 
+/* A symbolic index into the 4-entry queue of 64 KB packets is intractable for CBMC; the harness
+ * enumerates the 4 x 5 queue states with literal indices (exhaustive: SESSION_WF bounds both). */
+#define FOR_EACH_QUEUE_STATE(BODY) do { int nx_, f_; \
+	for (nx_ = 0; nx_ < OUTPACKETQ_LEN; nx_++) for (f_ = 0; f_ <= OUTPACKETQ_LEN; f_++) \
+		if (slot.outpacketq_nexttouse == nx_ && slot.outpacketq_filled == f_) { \
+			slot.outpacketq_nexttouse = nx_; slot.outpacketq_filled = f_; BODY; return; } \
+	__CPROVER_assert(0, "queue state outside SESSION_WF"); } while (0)
+
 /* ---- downstream fragments (C15, C14, C01 transfer clause) ---------------------------------------- */
+static void body_send_chunk(void);
 void h_send_chunk(void)
 {
 	any_server_state();
+	FOR_EACH_QUEUE_STATE(body_send_chunk());
+}
+static void body_send_chunk(void)
+{
 	struct query *q = nondet_bool() ? &slot.q : &slot.q_sendrealsoon;   /* the two queries a session may hold */
 	__CPROVER_assume(q->id != 0);                                      /* obligation at every call site, see dispatcher groups */
 	int F = slot.fragsize, len0 = slot.outpacket.len, off0 = slot.outpacket.offset, resent0 = slot.outfragresent;
@@ -442,9 +493,14 @@ void h_send_chunk(void)
 	VERIF_REACH();
 }
 
+static void body_downstream_ack(void);
 void h_downstream_ack(void)
 {
 	any_server_state();
+	FOR_EACH_QUEUE_STATE(body_downstream_ack());
+}
+static void body_downstream_ack(void)
+{
 	int seq = nondet_int(), frag = nondet_int();
 	int len0 = slot.outpacket.len, off0 = slot.outpacket.offset, sent0 = slot.outpacket.sentlen, qf0 = slot.outpacketq_filled;
 	char frag0 = slot.outpacket.fragment, seq0 = slot.outpacket.seqno;
@@ -457,19 +513,24 @@ void h_downstream_ack(void)
 	VERIF_REACH();
 }
 
+static void body_outpacket_queue(void);
 void h_outpacket_queue(void)
 {
 	any_server_state();
+	FOR_EACH_QUEUE_STATE(body_outpacket_queue());
+}
+static void body_outpacket_queue(void)
+{
 	static char data[64 * 1024];
 	int datalen = nondet_int();
-	__CPROVER_assume(datalen >= 0 && datalen <= 65536);
+	__CPROVER_assume(datalen >= 0 && datalen <= 65536);   /* callers pass up to 64 KB */
 	int qf0 = slot.outpacketq_filled, next0 = slot.outpacketq_nexttouse;
 	char seq0 = slot.outpacket.seqno;
 	if (nondet_bool()) {
 		int r = save_to_outpacketq(0, data, datalen);
 		__CPROVER_assert(r == (qf0 < OUTPACKETQ_LEN), "save_to_outpacketq succeeds exactly when the queue has room");
 		__CPROVER_assert(slot.outpacketq_filled == qf0 + r && slot.outpacketq_nexttouse == next0, "one more entry, read position unchanged");
-		__CPROVER_assert(!r || slot.outpacketq[(next0 + qf0) % OUTPACKETQ_LEN].len == datalen, "the entry is stored behind the existing ones with its length");
+		__CPROVER_assert(!r || slot.outpacketq[(next0 + qf0) % OUTPACKETQ_LEN].len == (datalen < (int)sizeof(slot.outpacket.data) ? datalen : (int)sizeof(slot.outpacket.data)), "the entry is stored behind the existing ones with its length (clamped to the buffer capacity)");
 	} else if (nondet_bool()) {
 		int r = get_from_outpacketq(0);
 		__CPROVER_assert(r == (qf0 > 0), "get_from_outpacketq succeeds exactly when something is queued");
@@ -477,8 +538,38 @@ void h_outpacket_queue(void)
 		__CPROVER_assert(!r || (slot.outpacket.offset == 0 && slot.outpacket.fragment == 0 && slot.outpacket.sentlen == 0 && slot.outpacket.seqno == ((seq0 + 1) & 7) && slot.outfragresent == 0), "a new downstream packet starts at fragment 0, offset 0, next sequence number");
 	} else {
 		start_new_outpacket(0, data, datalen);
-		__CPROVER_assert(slot.outpacket.len == datalen && slot.outpacket.offset == 0 && slot.outpacket.fragment == 0 && slot.outpacket.sentlen == 0 && slot.outpacket.seqno == ((seq0 + 1) & 7), "start_new_outpacket: exact length, fragment 0, offset 0, next sequence number");
+		__CPROVER_assert(slot.outpacket.len == (datalen < (int)sizeof(slot.outpacket.data) ? datalen : (int)sizeof(slot.outpacket.data)) && slot.outpacket.offset == 0 && slot.outpacket.fragment == 0 && slot.outpacket.sentlen == 0 && slot.outpacket.seqno == ((seq0 + 1) & 7), "start_new_outpacket: exact length, fragment 0, offset 0, next sequence number");
 	}
 	__CPROVER_assert(SESSION_WF(slot) && g_answers == 0, "invariant preserved, nothing emitted");
 	VERIF_REACH();
 }
+
+#ifdef H_PROBE
+void h_probe(void)
+{
+	any_server_state();
+#if H_PROBE >= 1
+	struct snap s0 = take_snap();
+#endif
+#if H_PROBE >= 2
+	verif_any_payload(&slot.outpacket);
+#endif
+#if H_PROBE == 3
+	start_new_outpacket(0, slot.outpacketq[1].data, slot.outpacketq[1].len);
+#endif
+#if H_PROBE == 4
+	get_from_outpacketq(0);
+#endif
+#if H_PROBE == 5
+	{ int n = slot.outpacketq[1].len; __CPROVER_assert(n == 0 || __CPROVER_r_ok(slot.outpacketq[1].data, n), "r"); __CPROVER_assert(n == 0 || __CPROVER_w_ok(slot.outpacket.data, n), "w"); }
+#endif
+#if H_PROBE == 6
+	{ int u = slot.outpacketq_nexttouse; slot.outpacket.len = slot.outpacketq[u].len; verif_any_payload(&slot.outpacket); }
+#endif
+#if H_PROBE == 7
+	{ int u = slot.outpacketq_nexttouse; int n = slot.outpacketq[u].len; __CPROVER_assert(n == 0 || __CPROVER_r_ok(slot.outpacketq[u].data, n), "r"); }
+#endif
+	__CPROVER_assert(SESSION_WF(slot), "wf");
+	VERIF_REACH();
+}
+#endif
